@@ -47,7 +47,8 @@ class Obligation:
 class Explorer:
     """Runs body(ctx) once per feasible path. Collects obligations."""
 
-    def __init__(self, timeout_ms=10000, max_paths=20000, name="", branch_timeout_ms=2000):
+    def __init__(self, timeout_ms=10000, max_paths=20000, name="", branch_timeout_ms=2000, budget_s=None):
+        self.deadline = (time.time() + budget_s) if budget_s else None
         self.timeout_ms = timeout_ms
         self.branch_timeout_ms = branch_timeout_ms
         self.max_paths = max_paths
@@ -66,6 +67,11 @@ class Explorer:
             prefix = stack.pop()
             if self.paths >= self.max_paths:
                 self.undecided_reasons.append("max_paths exceeded")
+                self.obligations.append(Obligation(f"{self.name}/exploration", "undecided", info=f"max_paths {self.max_paths} exceeded"))
+                break
+            if self.deadline is not None and time.time() > self.deadline:
+                self.undecided_reasons.append("case time budget exceeded")
+                self.obligations.append(Obligation(f"{self.name}/exploration", "undecided", info="case time budget exceeded"))
                 break
             ctx = Ctx(self, prefix)
             self.paths += 1
@@ -148,6 +154,8 @@ class Ctx:
 
     def _check(self, *assumptions):
         t0 = time.time()
+        if self.ex.deadline is not None and t0 > self.ex.deadline:
+            return z3.unknown
         r = self.solver.check(*assumptions)
         self.ex.solver_time += time.time() - t0
         self.ex.queries += 1
@@ -262,7 +270,8 @@ class Ctx:
 
     def cover(self, name: str):
         """Reachability witness: the current point must be reachable (guards against vacuous proofs)."""
-        ok = self.feasible()
+        r = self._check()
+        ok = r == z3.sat or (r == z3.unknown and self.feasible())
         self.ex.cover_hits[name] = self.ex.cover_hits.get(name, 0) + (1 if ok else 0)
         return ok
 
